@@ -160,6 +160,17 @@ def check_op_doc(case) -> list[Fail]:
     return roundtrip_fails(h)
 
 
+# operations whose encoding holds a field that is required and null: an unbounded nat parameter (bare, in a list
+# or tuple parameter), an extension constant whose payload is null
+_NAT = {"k": "nat", "max": None}
+NULL_FIELD_OPS = st.one_of(
+    st.sampled_from([[_NAT], [{"k": "list", "p": _NAT}], [{"k": "type", "b": "C"}, {"k": "tuple", "ps": [_NAT, {"k": "string"}]}]]).flatmap(
+        lambda ps: st.sampled_from(["FuncDecl", "FuncDefn"]).map(lambda k: dict({"k": k, "name": "f", "params": ps, "i": [], "o": []}, **({"reqs": []} if k == "FuncDecl" else {})))
+    ),
+    st.just({"k": "Const", "v": {"k": "ext", "name": "c", "t": {"k": "opaque", "ext": "my.ext", "id": "T", "args": [], "b": "C"}, "payload": None, "exts": []}}),
+)
+
+
 def order_strategy(tier):
     return st.fixed_dictionaries({"root": st.sampled_from(["dfg", "custom"]), "mut": st.one_of(store.order_port_mutations(14 if tier == "quick" else 24), store.stale_order_mutations())})
 
@@ -169,7 +180,7 @@ REQUIRES = {"children-not-in-index-order": _has_unsorted_children}
 SUBS = [
     Sub("programs", check, strategy=prog_strategy, nontrivial=nontrivial, classes=classes, n_quick=300, n_thorough=2000, sample_ok=lambda c: len(json.dumps(c)) < 3000),
     Sub("raw", check, fuzz_runs=1000, strategy=raw_strategy, nontrivial=nontrivial, classes=classes, n_quick=300, n_thorough=2000),
-    Sub("ops-in-document", check_op_doc, strategy=lambda tier: st.fixed_dictionaries({"op": __import__("vlib.asts", fromlist=["x"]).op_asts(2), "meta": store.META}), nontrivial=lambda c: True,
+    Sub("ops-in-document", check_op_doc, strategy=lambda tier: st.fixed_dictionaries({"op": st.one_of(__import__("vlib.asts", fromlist=["x"]).op_asts(2), __import__("vlib.asts", fromlist=["x"]).op_asts(2), NULL_FIELD_OPS), "meta": store.META}), nontrivial=lambda c: True,
         classes=lambda c: [c["op"]["k"]], n_quick=400, n_thorough=4000),
     Sub("order-ports", check, strategy=order_strategy, nontrivial=nontrivial, classes=classes, n_quick=150, n_thorough=1000),
     Sub("index-reuse", check, fuzz_runs=1000, strategy=reuse_strategy, nontrivial=nontrivial, classes=classes, n_quick=250, n_thorough=1500),
